@@ -1,12 +1,25 @@
 package bufcheck_test
 
+// Replay harness for property C05 "Lint reports exactly the style violations that are present"
+// (go test -overlay, injected as zz_verif_replay_test.go into private/bufpkg/bufcheck).
+//
+// A workspace that is clean by construction is linted through the real bufcheck client; then one
+// violation is planted by a textual edit and the annotations must be exactly the expected ones
+// (rule ID, file, line, column) - alone (lint.use = [RULE]) and together with the categories
+// (no annotation of an unrelated rule).  Expected positions are computed from anchor texts in the
+// planted sources (name of the element, option / import / package statement, type reference ...),
+// following each rule's Purpose text and the expectations documented in the package's lint_test.go.
+
 import (
 	"context"
 	"errors"
 	"fmt"
+	"io"
+	"log/slog"
 	"os"
 	"sort"
 	"strings"
+	"sync"
 	"testing"
 	"time"
 
@@ -17,11 +30,13 @@ import (
 	"github.com/bufbuild/buf/private/bufpkg/bufimage"
 	"github.com/bufbuild/buf/private/bufpkg/bufmodule"
 	"github.com/bufbuild/buf/private/bufpkg/bufplugin"
-	"github.com/bufbuild/buf/private/pkg/slogtestext"
 	"github.com/bufbuild/buf/private/pkg/storage"
 	"github.com/bufbuild/buf/private/pkg/storage/storagemem"
 	"github.com/bufbuild/buf/private/pkg/wasm"
 )
+
+// ---------------------------------------------------------------------------------------------
+// running lint
 
 type c05Ann struct {
 	rule, path     string
@@ -29,10 +44,24 @@ type c05Ann struct {
 	msg            string
 }
 
-func c05RunLint(t *testing.T, files map[string]string, bufYAML string) ([]c05Ann, error) {
-	ctx, cancel := context.WithTimeout(context.Background(), 20*time.Second)
+// key: "RULE path:line:col"; annotations without location (0:0 or 1:1) are "RULE path:-".
+func (a c05Ann) key() string {
+	if a.sl <= 1 && a.sc <= 1 {
+		return a.rule + " " + a.path + ":-"
+	}
+	return fmt.Sprintf("%s %s:%d:%d", a.rule, a.path, a.sl, a.sc)
+}
+
+type c05LintError struct{ err error }
+
+func (e *c05LintError) Error() string { return e.err.Error() }
+
+// c05RunLint builds an in-memory workspace and lints it. An error of type *c05LintError comes from the
+// lint call itself (not a set of annotations); any other error is a setup problem (config / compile).
+func c05RunLint(files map[string]string, bufYAML string) ([]c05Ann, error) {
+	ctx, cancel := context.WithTimeout(context.Background(), 30*time.Second)
 	defer cancel()
-	logger := slogtestext.NewLogger(t)
+	logger := slog.New(slog.NewTextHandler(io.Discard, nil))
 	bucket := storagemem.NewReadWriteBucket()
 	if err := storage.PutPath(ctx, bucket, "buf.yaml", []byte(bufYAML)); err != nil {
 		return nil, err
@@ -68,7 +97,7 @@ func c05RunLint(t *testing.T, files map[string]string, bufYAML string) ([]c05Ann
 	}
 	var set bufanalysis.FileAnnotationSet
 	if !errors.As(err, &set) {
-		return nil, fmt.Errorf("lint: %w", err)
+		return nil, &c05LintError{err}
 	}
 	var out []c05Ann
 	for _, a := range set.FileAnnotations() {
@@ -78,24 +107,1675 @@ func c05RunLint(t *testing.T, files map[string]string, bufYAML string) ([]c05Ann
 		}
 		out = append(out, c05Ann{a.Type(), path, a.StartLine(), a.StartColumn(), a.EndLine(), a.EndColumn(), a.Message()})
 	}
-	sort.Slice(out, func(i, j int) bool {
-		return fmt.Sprint(out[i]) < fmt.Sprint(out[j])
-	})
 	return out, nil
+}
+
+func c05YAML(version string, use []string, opts string) string {
+	var b strings.Builder
+	b.WriteString("version: " + version + "\nlint:\n  use:\n")
+	for _, u := range use {
+		b.WriteString("    - " + u + "\n")
+	}
+	b.WriteString(opts)
+	return b.String()
+}
+
+// ---------------------------------------------------------------------------------------------
+// the clean workspace: satisfies STANDARD/DEFAULT, COMMENTS and UNARY_RPC by construction
+
+const c05PetProto = `// Messages of the pet package.
+syntax = "proto3";
+
+package acme.pet.v1;
+
+import "acme/pet/v1/pet_kind.proto";
+import "acme/store/v1/store.proto";
+
+// Pet is a pet.
+message Pet {
+  // Tag is a nested message.
+  message Tag {
+    // Color is a doubly nested enum.
+    enum Color {
+      // No colour given.
+      COLOR_UNSPECIFIED = 0;
+      // Red.
+      COLOR_RED = 1;
+    }
+    // Label of the tag.
+    string label = 1;
+    // Colour of the tag.
+    Color tag_color = 2;
+  }
+  // Status is a nested enum.
+  enum Status {
+    // Not known.
+    STATUS_UNSPECIFIED = 0;
+    // Alive and well.
+    STATUS_ACTIVE = 1;
+  }
+  // Name of the pet.
+  string pet_name = 1;
+  // What animal it is.
+  PetKind kind = 2;
+  // Status of the pet.
+  Status pet_status = 3;
+  // Tags of the pet.
+  repeated Tag tags = 4;
+  // Free-form labels.
+  map<string, string> labels = 5;
+  // Who owns the pet.
+  oneof owner_ref {
+    // A person.
+    string owner_id = 6;
+    // A store.
+    acme.store.v1.Store store = 7;
+  }
+  // Optional nickname.
+  optional string nick_name = 8;
+}
+`
+
+const c05PetKindProto = `syntax = "proto3";
+
+package acme.pet.v1;
+
+// PetKind says what animal a pet is.
+enum PetKind {
+  // Not known.
+  PET_KIND_UNSPECIFIED = 0;
+  // A dog.
+  PET_KIND_DOG = 1;
+  // A cat.
+  PET_KIND_CAT = 2;
+}
+`
+
+const c05PetServiceProto = `syntax = "proto3";
+
+package acme.pet.v1;
+
+import "acme/pet/v1/pet.proto";
+
+// PetService manages pets.
+service PetService {
+  // GetPet fetches a pet.
+  rpc GetPet(GetPetRequest) returns (GetPetResponse);
+  // PutPet stores a pet.
+  rpc PutPet(PutPetRequest) returns (PutPetResponse);
+}
+
+// PetAdminService is a second service in the same file.
+service PetAdminService {
+  // DeletePet removes a pet.
+  rpc DeletePet(PetAdminServiceDeletePetRequest) returns (PetAdminServiceDeletePetResponse);
+}
+
+// GetPetRequest asks for a pet.
+message GetPetRequest {
+  // Name of the pet.
+  string pet_name = 1;
+}
+
+// GetPetResponse carries a pet.
+message GetPetResponse {
+  // The pet.
+  Pet pet = 1;
+}
+
+// PutPetRequest carries a pet.
+message PutPetRequest {
+  // The pet.
+  Pet pet = 1;
+}
+
+// PutPetResponse is empty.
+message PutPetResponse {}
+
+// PetAdminServiceDeletePetRequest names a pet.
+message PetAdminServiceDeletePetRequest {
+  // Name of the pet.
+  string pet_name = 1;
+}
+
+// PetAdminServiceDeletePetResponse is empty.
+message PetAdminServiceDeletePetResponse {}
+`
+
+const c05StoreProto = `syntax = "proto3";
+
+package acme.store.v1;
+
+// Store sells pets.
+message Store {
+  // Name of the store.
+  string store_name = 1;
+  // Kind of the store.
+  StoreKind store_kind = 2;
+}
+
+// StoreKind is the kind of a store.
+enum StoreKind {
+  // Not known.
+  STORE_KIND_UNSPECIFIED = 0;
+  // Online shop.
+  STORE_KIND_ONLINE = 1;
+}
+
+// StoreService lists stores.
+service StoreService {
+  // ListStores lists the stores.
+  rpc ListStores(ListStoresRequest) returns (ListStoresResponse);
+}
+
+// ListStoresRequest is empty.
+message ListStoresRequest {}
+
+// ListStoresResponse carries stores.
+message ListStoresResponse {
+  // The stores.
+  repeated Store stores = 1;
+}
+`
+
+const (
+	c05Pet     = "acme/pet/v1/pet.proto"
+	c05Kind    = "acme/pet/v1/pet_kind.proto"
+	c05Service = "acme/pet/v1/pet_service.proto"
+	c05Store   = "acme/store/v1/store.proto"
+)
+
+func c05CleanFiles() map[string]string {
+	return map[string]string{
+		c05Pet:     c05PetProto,
+		c05Kind:    c05PetKindProto,
+		c05Service: c05PetServiceProto,
+		c05Store:   c05StoreProto,
+	}
+}
+
+// ---------------------------------------------------------------------------------------------
+// cases
+
+type c05Exp struct {
+	rule   string // "" = the case's rule
+	path   string
+	anchor string // text in the planted file at which the annotation starts; "" = annotation without location
+	nth    int    // which occurrence of anchor
+	after  bool   // the annotation starts right after the anchor text
+}
+
+type c05Case struct {
+	rules    []string // rules under test
+	desc     []string // the planted edits
+	files    map[string]string
+	opts     string   // extra lines of the lint section of buf.yaml
+	versions []string // nil = every config version that has the rule
+	expect   []c05Exp
+	allowed  []string // rules that may legitimately fire as a consequence in the category run
+	noCat    bool     // no category run
+	asSet    bool     // compare as sets (rule documents duplicates)
+	tag      string   // "opt" = rule option / config reading case
+	bad      string   // harness construction problem
+}
+
+func (c *c05Case) rule() string { return c.rules[0] }
+
+// workspace edit helpers (record what they do)
+func (c *c05Case) sub(path, old, new string) *c05Case {
+	content, ok := c.files[path]
+	if !ok || !strings.Contains(content, old) {
+		c.bad = fmt.Sprintf("edit: %q not found in %s", old, path)
+		return c
+	}
+	c.files[path] = strings.Replace(content, old, new, 1)
+	c.desc = append(c.desc, fmt.Sprintf("%s: %q -> %q", path, old, new))
+	return c
+}
+
+func (c *c05Case) subAll(path, old, new string) *c05Case {
+	content, ok := c.files[path]
+	if !ok || !strings.Contains(content, old) {
+		c.bad = fmt.Sprintf("edit: %q not found in %s", old, path)
+		return c
+	}
+	c.files[path] = strings.ReplaceAll(content, old, new)
+	c.desc = append(c.desc, fmt.Sprintf("%s: all %q -> %q", path, old, new))
+	return c
+}
+
+// quiet variant for collateral reference updates
+func (c *c05Case) fix(path, old, new string) *c05Case {
+	n := len(c.desc)
+	c.subAll(path, old, new)
+	c.desc = c.desc[:n]
+	return c
+}
+
+func (c *c05Case) add(path, content string) *c05Case {
+	c.files[path] = content
+	c.desc = append(c.desc, fmt.Sprintf("new file %s: %s", path, c05Compact(content)))
+	return c
+}
+
+func (c *c05Case) move(from, to string) *c05Case {
+	content, ok := c.files[from]
+	if !ok {
+		c.bad = "move: no file " + from
+		return c
+	}
+	delete(c.files, from)
+	c.files[to] = content
+	c.desc = append(c.desc, fmt.Sprintf("file %s moved to %s", from, to))
+	return c
+}
+
+func (c *c05Case) option(opts string) *c05Case   { c.opts += opts; c.tag = "opt"; return c }
+func (c *c05Case) only(versions ...string) *c05Case { c.versions = versions; return c }
+func (c *c05Case) allow(rules ...string) *c05Case { c.allowed = append(c.allowed, rules...); return c }
+func (c *c05Case) set() *c05Case                  { c.asSet = true; return c }
+func (c *c05Case) nocat() *c05Case                { c.noCat = true; return c }
+func (c *c05Case) also(rules ...string) *c05Case  { c.rules = append(c.rules, rules...); return c }
+
+func (c *c05Case) at(path, anchor string) *c05Case {
+	c.expect = append(c.expect, c05Exp{path: path, anchor: anchor})
+	return c
+}
+func (c *c05Case) atN(path, anchor string, nth int) *c05Case {
+	c.expect = append(c.expect, c05Exp{path: path, anchor: anchor, nth: nth})
+	return c
+}
+func (c *c05Case) atAfter(path, anchor string) *c05Case {
+	c.expect = append(c.expect, c05Exp{path: path, anchor: anchor, after: true})
+	return c
+}
+func (c *c05Case) atRule(rule, path, anchor string) *c05Case {
+	c.expect = append(c.expect, c05Exp{rule: rule, path: path, anchor: anchor})
+	return c
+}
+func (c *c05Case) noLoc(path string) *c05Case {
+	c.expect = append(c.expect, c05Exp{path: path})
+	return c
+}
+
+func c05New(rule string) *c05Case {
+	return &c05Case{rules: []string{rule}, files: c05CleanFiles()}
+}
+
+func c05Empty(rule string) *c05Case {
+	return &c05Case{rules: []string{rule}, files: map[string]string{}}
+}
+
+// expected keys of a case
+func (c *c05Case) expectedKeys() ([]string, error) {
+	var keys []string
+	for _, e := range c.expect {
+		rule := e.rule
+		if rule == "" {
+			rule = c.rule()
+		}
+		if e.anchor == "" {
+			keys = append(keys, rule+" "+e.path+":-")
+			continue
+		}
+		content, ok := c.files[e.path]
+		if !ok {
+			return nil, fmt.Errorf("expectation: no file %s", e.path)
+		}
+		off, from := -1, 0
+		for i := 0; i <= e.nth; i++ {
+			j := strings.Index(content[from:], e.anchor)
+			if j < 0 {
+				return nil, fmt.Errorf("expectation: anchor %q (#%d) not in %s", e.anchor, e.nth, e.path)
+			}
+			off = from + j
+			from = off + 1
+		}
+		if e.after {
+			off += len(e.anchor)
+		}
+		line := 1 + strings.Count(content[:off], "\n")
+		col := off - strings.LastIndex(content[:off], "\n")
+		a := c05Ann{rule: rule, path: e.path, sl: line, sc: col}
+		keys = append(keys, a.key())
+	}
+	sort.Strings(keys)
+	return keys, nil
+}
+
+// ---------------------------------------------------------------------------------------------
+// rule tables (from bufcheckserver.go: which config version has which rule / category)
+
+var c05AllVersions = []string{"v1beta1", "v1", "v2"}
+
+var c05RuleVersions = map[string][]string{
+	"FIELD_NO_DESCRIPTOR":               {"v1beta1"},
+	"FIELD_NOT_REQUIRED":                {"v2"},
+	"IMPORT_USED":                       {"v1", "v2"},
+	"SYNTAX_SPECIFIED":                  {"v1", "v2"},
+	"PROTOVALIDATE":                     {"v1", "v2"},
+	"PACKAGE_NO_IMPORT_CYCLE":           {"v1", "v2"},
+	"STABLE_PACKAGE_NO_IMPORT_UNSTABLE": {"v2"},
+}
+
+func c05VersionsOf(rules []string) []string {
+	var out []string
+	for _, v := range c05AllVersions {
+		ok := true
+		for _, r := range rules {
+			if vs, limited := c05RuleVersions[r]; limited && !c05Has(vs, v) {
+				ok = false
+			}
+		}
+		if ok {
+			out = append(out, v)
+		}
+	}
+	return out
+}
+
+func c05Has(list []string, s string) bool {
+	for _, x := range list {
+		if x == s {
+			return true
+		}
+	}
+	return false
+}
+
+func c05Categories(version string) []string {
+	switch version {
+	case "v2":
+		return []string{"STANDARD", "COMMENTS", "UNARY_RPC"}
+	case "v1":
+		return []string{"DEFAULT", "COMMENTS", "UNARY_RPC"}
+	default:
+		return []string{"DEFAULT", "COMMENTS", "UNARY_RPC", "OTHER"}
+	}
+}
+
+// rules that are in no category of the version and have to be named
+func c05Uncategorized(version, rule string) bool {
+	switch rule {
+	case "STABLE_PACKAGE_NO_IMPORT_UNSTABLE":
+		return true
+	case "PACKAGE_NO_IMPORT_CYCLE":
+		return version == "v1"
+	}
+	return false
+}
+
+// ---------------------------------------------------------------------------------------------
+// checking
+
+type c05Failure struct {
+	c    *c05Case // nil: the clean workspace
+	cfg  string
+	text string
+}
+
+type c05Checker struct {
+	mu       sync.Mutex
+	failures []c05Failure
+	passes   map[*c05Case][]string
+	light    bool // many cases: category runs for the newest config version only
+	problems []string
+	runs     int
+}
+
+func (k *c05Checker) fail(c *c05Case, cfg string, format string, a ...any) {
+	k.mu.Lock()
+	defer k.mu.Unlock()
+	k.failures = append(k.failures, c05Failure{c, cfg, strings.ReplaceAll(fmt.Sprintf(format, a...), "\n", "\\n")})
+}
+
+func (k *c05Checker) problem(format string, a ...any) {
+	k.mu.Lock()
+	defer k.mu.Unlock()
+	k.problems = append(k.problems, strings.ReplaceAll(fmt.Sprintf(format, a...), "\n", "\\n"))
+}
+
+// one line per failing case: its first failing configuration, the others are named
+func (k *c05Checker) lines() []string {
+	sort.SliceStable(k.failures, func(i, j int) bool { return k.failures[i].cfg < k.failures[j].cfg })
+	var order []*c05Case
+	byCase := map[*c05Case][]c05Failure{}
+	for _, f := range k.failures {
+		if _, ok := byCase[f.c]; !ok {
+			order = append(order, f.c)
+		}
+		byCase[f.c] = append(byCase[f.c], f)
+	}
+	var lines []string
+	for _, c := range order {
+		fs := byCase[c]
+		line := fs[0].text
+		if len(fs) > 1 {
+			var cfgs []string
+			for _, f := range fs[1:] {
+				cfgs = append(cfgs, f.cfg)
+			}
+			line += " [fails likewise with: " + strings.Join(cfgs, ", ") + "]"
+		}
+		if ps := k.passes[c]; c != nil && len(ps) > 0 {
+			sort.Strings(ps)
+			line += " [as expected with: " + strings.Join(ps, ", ") + "]"
+		}
+		lines = append(lines, line)
+	}
+	sort.SliceStable(lines, func(i, j int) bool { return len(lines[i]) < len(lines[j]) })
+	return lines
+}
+
+func c05Keys(anns []c05Ann, keep func(c05Ann) bool, asSet bool) []string {
+	var keys []string
+	seen := map[string]bool{}
+	for _, a := range anns {
+		if keep != nil && !keep(a) {
+			continue
+		}
+		k := a.key()
+		if asSet && seen[k] {
+			continue
+		}
+		seen[k] = true
+		keys = append(keys, k)
+	}
+	sort.Strings(keys)
+	return keys
+}
+
+func c05Show(keys []string) string {
+	if len(keys) == 0 {
+		return "{}"
+	}
+	return "{" + strings.Join(keys, "; ") + "}"
+}
+
+// source text on one line, without the syntax line, blank lines and comment lines
+func c05Compact(content string) string {
+	var keep []string
+	for _, line := range strings.Split(content, "\n") {
+		line = strings.TrimSpace(line)
+		if line == "" || strings.HasPrefix(line, "//") || strings.HasPrefix(line, "syntax = \"proto3\"") {
+			continue
+		}
+		keep = append(keep, line)
+	}
+	out := strings.Join(keep, " ")
+	if len(out) > 240 {
+		out = out[:240] + "..."
+	}
+	return "`" + out + "`"
+}
+
+func c05OneLine(s string) string {
+	return strings.ReplaceAll(strings.TrimSpace(s), "\n", " | ")
+}
+
+func (k *c05Checker) check(c *c05Case) {
+	if c.bad != "" {
+		k.problem("case %v: %s", c.rules, c.bad)
+		return
+	}
+	want, err := c.expectedKeys()
+	if err != nil {
+		k.problem("case %v %v: %v", c.rules, c.desc, err)
+		return
+	}
+	if c.asSet {
+		var uniq []string
+		for i, x := range want {
+			if i == 0 || want[i-1] != x {
+				uniq = append(uniq, x)
+			}
+		}
+		want = uniq
+	}
+	versions := c.versions
+	if versions == nil {
+		versions = c05VersionsOf(c.rules)
+	}
+	planted := strings.Join(c.desc, "; ")
+	if planted == "" {
+		planted = "nothing (clean workspace)"
+	}
+	for _, version := range versions {
+		// (i) only the rules under test
+		yaml := c05YAML(version, c.rules, c.opts)
+		k.run(c, version, yaml, planted, want, false)
+		// (ii) with the categories
+		if c.noCat || version == "v1beta1" || (k.light && version != versions[len(versions)-1]) {
+			continue
+		}
+		use := c05Categories(version)
+		for _, r := range c.rules {
+			if c05Uncategorized(version, r) {
+				use = append(use, r)
+			}
+		}
+		k.run(c, version, c05YAML(version, use, c.opts), planted, want, true)
+	}
+}
+
+func (k *c05Checker) run(c *c05Case, version, yaml, planted string, want []string, categories bool) {
+	k.mu.Lock()
+	k.runs++
+	k.mu.Unlock()
+	cfg := version + " rule alone"
+	if categories {
+		cfg = version + " with categories"
+	}
+	anns, err := c05RunLint(c.files, yaml)
+	if err != nil {
+		var lintErr *c05LintError
+		if errors.As(err, &lintErr) {
+			k.fail(c, cfg, "planted: %s; buf.yaml: %s; expected annotations %s; lint failed instead: %v", planted, c05OneLine(yaml), c05Show(want), err)
+		} else {
+			k.problem("case %v (%s) %s: %v", c.rules, version, planted, err)
+		}
+		return
+	}
+	got := c05Keys(anns, func(a c05Ann) bool { return c05Has(c.rules, a.rule) }, c.asSet)
+	if strings.Join(got, "\n") != strings.Join(want, "\n") {
+		k.fail(c, cfg, "planted: %s; buf.yaml: %s; expected %s; observed %s", planted, c05OneLine(yaml), c05Show(want), c05Show(got))
+		return
+	}
+	failed := false
+	defer func() {
+		if !failed {
+			k.mu.Lock()
+			if k.passes == nil {
+				k.passes = map[*c05Case][]string{}
+			}
+			k.passes[c] = append(k.passes[c], cfg)
+			k.mu.Unlock()
+		}
+	}()
+	if categories {
+		other := c05Keys(anns, func(a c05Ann) bool { return !c05Has(c.rules, a.rule) && !c05Has(c.allowed, a.rule) }, true)
+		if len(other) > 0 {
+			failed = true
+			k.fail(c, cfg, "planted: %s; buf.yaml: %s; expected only %s; unrelated rules also fired: %s", planted, c05OneLine(yaml), c05Show(want), c05Show(other))
+		}
+	}
+}
+
+// ---------------------------------------------------------------------------------------------
+// catalogue
+
+func c05Catalogue() []*c05Case {
+	var cs []*c05Case
+	add := func(c ...*c05Case) { cs = append(cs, c...) }
+	c05CatNames(add)
+	c05CatEnums(add)
+	c05CatFields(add)
+	c05CatFilesPackages(add)
+	c05CatImports(add)
+	c05CatSameOption(add)
+	c05CatRPC(add)
+	c05CatOptions(add)
+	c05CatComments(add)
+	c05CatProtovalidate(add)
+	return cs
+}
+
+// ---------------------------------------------------------------------------------------------
+// dispatch
+
+// handleLintRPCRequestStandardName -> RPC_REQUEST_STANDARD_NAME
+func c05RuleOfHandler(fn string) string {
+	name := strings.TrimPrefix(strings.TrimPrefix(fn, "handleLint"), "HandleLint")
+	var b strings.Builder
+	rs := []rune(name)
+	for i, r := range rs {
+		upper := r >= 'A' && r <= 'Z'
+		if i > 0 && upper {
+			prevLower := !(rs[i-1] >= 'A' && rs[i-1] <= 'Z')
+			nextLower := i+1 < len(rs) && !(rs[i+1] >= 'A' && rs[i+1] <= 'Z')
+			if prevLower || nextLower {
+				b.WriteByte('_')
+			}
+		}
+		b.WriteString(strings.ToUpper(string(r)))
+	}
+	return b.String()
+}
+
+func c05RulesForFunc(fn string, all []string) (rules []string, optOnly bool, ok bool) {
+	withPrefix := func(p string) []string {
+		var out []string
+		for _, r := range all {
+			if strings.HasPrefix(r, p) {
+				out = append(out, r)
+			}
+		}
+		return out
+	}
+	switch fn {
+	case "handleLintPackageSameOptionValue":
+		return []string{"PACKAGE_SAME_CSHARP_NAMESPACE", "PACKAGE_SAME_GO_PACKAGE", "PACKAGE_SAME_JAVA_MULTIPLE_FILES", "PACKAGE_SAME_JAVA_PACKAGE", "PACKAGE_SAME_PHP_NAMESPACE", "PACKAGE_SAME_RUBY_PACKAGE", "PACKAGE_SAME_SWIFT_PREFIX"}, false, true
+	case "handleLintCommentNamedDescriptor", "validLeadingComment":
+		return withPrefix("COMMENT_"), false, true
+	case "fieldToLowerSnakeCase":
+		return []string{"FIELD_LOWER_SNAKE_CASE", "ONEOF_LOWER_SNAKE_CASE"}, false, true
+	case "fieldToUpperSnakeCase":
+		return []string{"ENUM_VALUE_UPPER_SNAKE_CASE", "ENUM_VALUE_PREFIX"}, false, true
+	case "getImportCycleIfExists":
+		return []string{"PACKAGE_NO_IMPORT_CYCLE"}, false, true
+	case "Base", "Ext":
+		return []string{"FILE_LOWER_SNAKE_CASE"}, false, true
+	case "Dir":
+		return []string{"PACKAGE_DIRECTORY_MATCH", "PACKAGE_SAME_DIRECTORY", "DIRECTORY_SAME_PACKAGE"}, false, true
+	case "all":
+		return all, false, true
+	// bufcheckserverutil iteration helpers
+	case "NewLintFilesRuleHandler", "NewLintFileRuleHandler", "NewRuleHandler":
+		return all, false, true
+	case "NewLintPackageToFilesRuleHandler":
+		return withPrefix("PACKAGE_SAME_"), false, true
+	case "NewLintDirPathToFilesRuleHandler":
+		return []string{"DIRECTORY_SAME_PACKAGE"}, false, true
+	case "NewLintFileImportRuleHandler":
+		return withPrefix("IMPORT_"), false, true
+	case "NewLintEnumRuleHandler":
+		return append(withPrefix("ENUM_"), "COMMENT_ENUM", "COMMENT_ENUM_VALUE"), false, true
+	case "NewLintEnumValueRuleHandler":
+		return append(withPrefix("ENUM_VALUE_"), "ENUM_ZERO_VALUE_SUFFIX", "COMMENT_ENUM_VALUE"), false, true
+	case "NewLintMessageRuleHandler":
+		return []string{"MESSAGE_PASCAL_CASE", "COMMENT_MESSAGE", "ONEOF_LOWER_SNAKE_CASE", "COMMENT_ONEOF"}, false, true
+	case "NewLintFieldRuleHandler":
+		return append(withPrefix("FIELD_"), "COMMENT_FIELD"), false, true
+	case "NewLintOneofRuleHandler":
+		return []string{"ONEOF_LOWER_SNAKE_CASE", "COMMENT_ONEOF"}, false, true
+	case "NewLintServiceRuleHandler":
+		return append(withPrefix("SERVICE_"), "COMMENT_SERVICE", "RPC_PASCAL_CASE", "COMMENT_RPC"), false, true
+	case "NewLintMethodRuleHandler":
+		return append(withPrefix("RPC_"), "COMMENT_RPC"), false, true
+	}
+	if strings.HasPrefix(fn, "handleLint") || strings.HasPrefix(fn, "HandleLint") {
+		rule := c05RuleOfHandler(fn)
+		if c05Has(all, rule) {
+			return []string{rule}, false, true
+		}
+		return nil, false, false
+	}
+	// package bufconfig: the readers of the lint section and the LintConfig accessors
+	lower := strings.ToLower(fn)
+	if strings.Contains(lower, "lintconfig") || strings.Contains(lower, "externallint") {
+		return nil, true, true
+	}
+	switch fn {
+	case "EnumZeroValueSuffix", "RPCAllowSameRequestResponse", "RPCAllowGoogleProtobufEmptyRequests", "RPCAllowGoogleProtobufEmptyResponses", "ServiceSuffix", "AllowCommentIgnores":
+		return nil, true, true
+	}
+	return nil, false, false
 }
 
 func TestVerifReplayC05(t *testing.T) {
 	fn := os.Getenv("VERIF_REPLAY_FUNC")
-	_ = fn
-	_ = strings.Contains
 	start := time.Now()
-	anns, err := c05RunLint(t, map[string]string{
-		"acme/pet/v1/pet.proto": "syntax = \"proto3\";\npackage acme.pet.v1;\nmessage pet { string Name = 1; }\n",
-	}, "version: v2\nlint:\n  use:\n    - STANDARD\n    - COMMENTS\n")
-	fmt.Printf("VERIF-REPLAY dbg %v %v %v\n", anns, err, time.Since(start))
-	start = time.Now()
-	anns, err = c05RunLint(t, map[string]string{
-		"acme/pet/v1/pet.proto": "syntax = \"proto3\";\npackage acme.pet.v1;\nmessage pet { string Name = 1; }\n",
-	}, "version: v1beta1\nlint:\n  use:\n    - DEFAULT\n    - COMMENTS\n")
-	fmt.Printf("VERIF-REPLAY dbg %v %v %v\n", anns, err, time.Since(start))
+	catalogue := c05Catalogue()
+	var all []string
+	for _, c := range catalogue {
+		for _, r := range c.rules {
+			if !c05Has(all, r) {
+				all = append(all, r)
+			}
+		}
+	}
+	sort.Strings(all)
+	rules, optOnly, ok := c05RulesForFunc(fn, all)
+	if !ok {
+		fmt.Printf("VERIF-REPLAY no harness for %q\n", fn)
+		return
+	}
+	var selected []*c05Case
+	for _, c := range catalogue {
+		if optOnly {
+			if c.tag == "opt" {
+				selected = append(selected, c)
+			}
+			continue
+		}
+		for _, r := range c.rules {
+			if c05Has(rules, r) {
+				selected = append(selected, c)
+				break
+			}
+		}
+	}
+	if optOnly {
+		for _, c := range selected {
+			for _, r := range c.rules {
+				if !c05Has(rules, r) {
+					rules = append(rules, r)
+				}
+			}
+		}
+	}
+	// the clean workspace: nothing for each selected rule alone, nothing for the categories
+	for _, r := range rules {
+		selected = append(selected, c05New(r).nocat())
+	}
+	k := &c05Checker{}
+	for _, version := range c05AllVersions {
+		sets := [][]string{c05Categories(version)}
+		if version == "v2" {
+			sets = append(sets, []string{"MINIMAL"}, []string{"BASIC"})
+		}
+		for _, use := range sets {
+			yaml := c05YAML(version, use, "")
+			anns, err := c05RunLint(c05CleanFiles(), yaml)
+			k.runs++
+			if err != nil {
+				k.problem("clean workspace (%s): %v", version, err)
+				continue
+			}
+			// with a handler named, only its rules are this invocation's business
+			got := c05Keys(anns, func(a c05Ann) bool { return c05Has(rules, a.rule) }, true)
+			if len(got) > 0 {
+				k.fail(nil, version+" "+strings.Join(use, "+"), "planted: nothing (clean workspace: packages acme.pet.v1 in acme/pet/v1/{pet,pet_kind,pet_service}.proto and acme.store.v1 in acme/store/v1/store.proto, every element commented, standard names); buf.yaml: %s; expected {}; observed %s", c05OneLine(yaml), c05Show(got))
+			}
+		}
+	}
+	k.light = len(selected) > 40
+	var wg sync.WaitGroup
+	work := make(chan *c05Case)
+	for i := 0; i < 8; i++ {
+		wg.Add(1)
+		go func() {
+			defer wg.Done()
+			for c := range work {
+				k.check(c)
+			}
+		}()
+	}
+	for _, c := range selected {
+		work <- c
+	}
+	close(work)
+	wg.Wait()
+	lines := k.lines()
+	for i, f := range lines {
+		if i >= 5 && os.Getenv("VERIF_REPLAY_C05_ALL") == "" {
+			break
+		}
+		fmt.Printf("VERIF-REPLAY FAILING-INPUT %s\n", f)
+	}
+	for i, p := range k.problems {
+		if i >= 10 {
+			break
+		}
+		fmt.Printf("VERIF-REPLAY harness-problem %s\n", p)
+	}
+	fmt.Printf("VERIF-REPLAY checked %d cases (%d lint runs, rules %s) for %q in %s, %d failing\n", len(selected), k.runs, strings.Join(rules, ","), fn, time.Since(start).Round(time.Millisecond), len(lines))
+}
+
+// ---------------------------------------------------------------------------------------------
+// catalogue: element names in the wrong case (annotation at the NAME of the element)
+
+func c05CatNames(add func(...*c05Case)) {
+	// MESSAGE_PASCAL_CASE: top level, nested, doubly nested, second package, second file
+	add(
+		c05New("MESSAGE_PASCAL_CASE").
+			sub(c05Pet, "// Pet is a pet.\n", "// Extra is extra.\nmessage pet_extra {}\n\n// Pet is a pet.\n").
+			at(c05Pet, "pet_extra"),
+		c05New("MESSAGE_PASCAL_CASE").
+			sub(c05Pet, "message Tag {", "message tag {").fix(c05Pet, "repeated Tag tags", "repeated tag tags").
+			at(c05Pet, "tag {"),
+		c05New("MESSAGE_PASCAL_CASE").
+			sub(c05Pet, "    // Label of the tag.\n", "    // Inner is doubly nested.\n    message innerMost {}\n    // Label of the tag.\n").
+			at(c05Pet, "innerMost"),
+		c05New("MESSAGE_PASCAL_CASE").
+			sub(c05Store, "message Store {", "message store {").fix(c05Store, "repeated Store stores", "repeated store stores").fix(c05Pet, "acme.store.v1.Store store", "acme.store.v1.store store").
+			at(c05Store, "store {"),
+		c05New("MESSAGE_PASCAL_CASE").
+			sub(c05Service, "message PutPetResponse {}", "message Put_Pet_Response {}").fix(c05Service, "(PutPetResponse)", "(Put_Pet_Response)").
+			at(c05Service, "Put_Pet_Response {}").allow("RPC_RESPONSE_STANDARD_NAME"),
+	)
+	// ENUM_PASCAL_CASE: top level, nested, doubly nested, second package
+	add(
+		c05New("ENUM_PASCAL_CASE").
+			sub(c05Kind, "enum PetKind {", "enum pet_kind {").fix(c05Pet, "PetKind kind", "pet_kind kind").
+			at(c05Kind, "pet_kind {"),
+		c05New("ENUM_PASCAL_CASE").
+			sub(c05Kind, "enum PetKind {", "enum petKind {").fix(c05Pet, "PetKind kind", "petKind kind").
+			at(c05Kind, "petKind {"),
+		c05New("ENUM_PASCAL_CASE").
+			sub(c05Pet, "enum Status {", "enum status {").fix(c05Pet, "Status pet_status", "status pet_status").
+			at(c05Pet, "status {"),
+		c05New("ENUM_PASCAL_CASE").
+			sub(c05Pet, "enum Color {", "enum color {").fix(c05Pet, "Color tag_color", "color tag_color").
+			at(c05Pet, "color {"),
+		c05New("ENUM_PASCAL_CASE").
+			sub(c05Store, "enum StoreKind {", "enum Store_kind {").fix(c05Store, "StoreKind store_kind", "Store_kind store_kind").
+			at(c05Store, "Store_kind {"),
+	)
+	// SERVICE_PASCAL_CASE
+	add(
+		c05New("SERVICE_PASCAL_CASE").
+			sub(c05Service, "service PetService {", "service petService {").
+			at(c05Service, "petService {"),
+		c05New("SERVICE_PASCAL_CASE").
+			sub(c05Service, "service PetAdminService {", "service pet_admin_Service {").
+			at(c05Service, "pet_admin_Service {").allow("RPC_REQUEST_STANDARD_NAME", "RPC_RESPONSE_STANDARD_NAME"),
+		c05New("SERVICE_PASCAL_CASE").
+			sub(c05Store, "service StoreService {", "service store_Service {").
+			at(c05Store, "store_Service {"),
+	)
+	// SERVICE_SUFFIX (default suffix "Service")
+	add(
+		c05New("SERVICE_SUFFIX").
+			sub(c05Service, "service PetService {", "service PetApi {").
+			at(c05Service, "PetApi {"),
+		c05New("SERVICE_SUFFIX").
+			sub(c05Service, "service PetAdminService {", "service PetAdminServices {").
+			at(c05Service, "PetAdminServices {").allow("RPC_REQUEST_STANDARD_NAME", "RPC_RESPONSE_STANDARD_NAME"),
+		c05New("SERVICE_SUFFIX").
+			sub(c05Store, "service StoreService {", "service Stores {").
+			at(c05Store, "Stores {"),
+	)
+	// RPC_PASCAL_CASE: first / second RPC, second service, second package
+	add(
+		c05New("RPC_PASCAL_CASE").
+			sub(c05Service, "rpc GetPet(", "rpc getPet(").
+			at(c05Service, "getPet(").allow("RPC_REQUEST_STANDARD_NAME", "RPC_RESPONSE_STANDARD_NAME"),
+		c05New("RPC_PASCAL_CASE").
+			sub(c05Service, "rpc PutPet(", "rpc put_pet(").
+			at(c05Service, "put_pet(").allow("RPC_REQUEST_STANDARD_NAME", "RPC_RESPONSE_STANDARD_NAME"),
+		c05New("RPC_PASCAL_CASE").
+			sub(c05Service, "rpc DeletePet(", "rpc deletePet(").
+			at(c05Service, "deletePet(").allow("RPC_REQUEST_STANDARD_NAME", "RPC_RESPONSE_STANDARD_NAME"),
+		c05New("RPC_PASCAL_CASE").
+			sub(c05Store, "rpc ListStores(", "rpc List_Stores(").
+			at(c05Store, "List_Stores(").allow("RPC_REQUEST_STANDARD_NAME", "RPC_RESPONSE_STANDARD_NAME"),
+	)
+	// ONEOF_LOWER_SNAKE_CASE: in a top-level and in a nested message; the synthetic oneof of a proto3 optional field is not an element of the source
+	add(
+		c05New("ONEOF_LOWER_SNAKE_CASE").
+			sub(c05Pet, "oneof owner_ref {", "oneof ownerRef {").
+			at(c05Pet, "ownerRef {"),
+		c05New("ONEOF_LOWER_SNAKE_CASE").
+			sub(c05Pet, "oneof owner_ref {", "oneof Owner_Ref {").
+			at(c05Pet, "Owner_Ref {"),
+		c05New("ONEOF_LOWER_SNAKE_CASE").
+			sub(c05Pet, "    // Label of the tag.\n", "    // A choice.\n    oneof ExtraChoice {\n      // First.\n      string extra_a = 3;\n    }\n    // Label of the tag.\n").
+			at(c05Pet, "ExtraChoice {"),
+		c05New("ONEOF_LOWER_SNAKE_CASE").
+			sub(c05Pet, "oneof owner_ref {", "oneof owner_ref_ {").
+			at(c05Pet, "owner_ref_ {"),
+		c05New("ONEOF_LOWER_SNAKE_CASE").
+			sub(c05Pet, "oneof owner_ref {", "oneof _owner_ref {").
+			at(c05Pet, "_owner_ref {"),
+		c05New("ONEOF_LOWER_SNAKE_CASE").
+			sub(c05Pet, "oneof owner_ref {", "oneof owner_ref2 {"),
+		c05New("ONEOF_LOWER_SNAKE_CASE").also("FIELD_LOWER_SNAKE_CASE").
+			sub(c05Pet, "optional string nick_name = 8;", "optional string nickName = 8;").
+			atRule("FIELD_LOWER_SNAKE_CASE", c05Pet, "nickName"),
+	)
+}
+
+// ---------------------------------------------------------------------------------------------
+// catalogue: enums and enum values
+
+const c05LegacyProto = `syntax = "proto2";
+
+package acme.pet.v1;
+
+// LegacyKind is a proto2 enum.
+enum LegacyKind {
+  // Not known.
+  LEGACY_KIND_UNSPECIFIED = 0;
+  // First.
+  LEGACY_KIND_ONE = 1;
+}
+
+// LegacyPet is a proto2 message.
+message LegacyPet {
+  // LegacyState is a nested proto2 enum.
+  enum LegacyState {
+    // Not known.
+    LEGACY_STATE_UNSPECIFIED = 0;
+    // Second.
+    LEGACY_STATE_TWO = 2;
+  }
+  // Name of the pet.
+  optional string pet_name = 1;
+  // Id of the pet.
+  optional string pet_id = 2;
+  // Inner is nested.
+  message Inner {
+    // Code.
+    optional int32 code = 1;
+  }
+}
+`
+
+const c05Legacy = "acme/pet/v1/legacy.proto"
+
+func c05NewLegacy(rule string) *c05Case {
+	c := c05New(rule)
+	c.files[c05Legacy] = c05LegacyProto
+	return c
+}
+
+func c05CatEnums(add func(...*c05Case)) {
+	// ENUM_VALUE_UPPER_SNAKE_CASE (annotation at the value name)
+	add(
+		c05New("ENUM_VALUE_UPPER_SNAKE_CASE").
+			sub(c05Kind, "PET_KIND_DOG = 1;", "PET_KIND_dog = 1;").
+			at(c05Kind, "PET_KIND_dog"),
+		c05New("ENUM_VALUE_UPPER_SNAKE_CASE").
+			sub(c05Kind, "PET_KIND_CAT = 2;", "PET_KIND_Cat = 2;").
+			at(c05Kind, "PET_KIND_Cat"),
+		c05New("ENUM_VALUE_UPPER_SNAKE_CASE").
+			sub(c05Pet, "COLOR_RED = 1;", "COLOR_Red = 1;").
+			at(c05Pet, "COLOR_Red"),
+		c05New("ENUM_VALUE_UPPER_SNAKE_CASE").
+			sub(c05Pet, "STATUS_ACTIVE = 1;", "STATUS_isActive = 1;").
+			at(c05Pet, "STATUS_isActive"),
+		c05New("ENUM_VALUE_UPPER_SNAKE_CASE").
+			sub(c05Kind, "PET_KIND_DOG = 1;", "PET_KIND_DOG_ = 1;").
+			at(c05Kind, "PET_KIND_DOG_ = 1"),
+		c05New("ENUM_VALUE_UPPER_SNAKE_CASE").
+			sub(c05Kind, "PET_KIND_DOG = 1;", "PET_KIND_DOG2 = 1;").sub(c05Kind, "PET_KIND_CAT = 2;", "PET_KIND_CAT_2 = 2;"),
+		c05New("ENUM_VALUE_UPPER_SNAKE_CASE").
+			sub(c05Store, "STORE_KIND_ONLINE = 1;", "STORE_KIND_online = 1;").
+			at(c05Store, "STORE_KIND_online"),
+	)
+	// ENUM_VALUE_PREFIX: ENUM_NAME_UPPER_SNAKE_CASE + "_"
+	add(
+		c05New("ENUM_VALUE_PREFIX").
+			sub(c05Kind, "PET_KIND_CAT = 2;", "KIND_CAT = 2;").
+			at(c05Kind, "KIND_CAT = 2"),
+		c05New("ENUM_VALUE_PREFIX").
+			sub(c05Kind, "PET_KIND_DOG = 1;", "PET_KINDDOG = 1;").
+			at(c05Kind, "PET_KINDDOG"),
+		c05New("ENUM_VALUE_PREFIX").
+			sub(c05Kind, "PET_KIND_DOG = 1;", "PETKIND_DOG = 1;").
+			at(c05Kind, "PETKIND_DOG"),
+		c05New("ENUM_VALUE_PREFIX").
+			sub(c05Pet, "COLOR_RED = 1;", "RED = 1;").
+			at(c05Pet, "RED = 1"),
+		c05New("ENUM_VALUE_PREFIX").
+			sub(c05Pet, "STATUS_ACTIVE = 1;", "PET_STATUS_ACTIVE = 1;").
+			at(c05Pet, "PET_STATUS_ACTIVE"),
+		c05New("ENUM_VALUE_PREFIX").
+			sub(c05Store, "STORE_KIND_UNSPECIFIED = 0;", "KIND_UNSPECIFIED = 0;").
+			at(c05Store, "KIND_UNSPECIFIED"),
+	)
+	// ENUM_ZERO_VALUE_SUFFIX (default "_UNSPECIFIED"); only the zero value is concerned
+	add(
+		c05New("ENUM_ZERO_VALUE_SUFFIX").
+			sub(c05Kind, "PET_KIND_UNSPECIFIED = 0;", "PET_KIND_UNKNOWN = 0;").
+			at(c05Kind, "PET_KIND_UNKNOWN"),
+		c05New("ENUM_ZERO_VALUE_SUFFIX").
+			sub(c05Pet, "COLOR_UNSPECIFIED = 0;", "COLOR_NONE = 0;").
+			at(c05Pet, "COLOR_NONE"),
+		c05New("ENUM_ZERO_VALUE_SUFFIX").
+			sub(c05Pet, "STATUS_UNSPECIFIED = 0;", "STATUS_UNSPECIFIED_VALUE = 0;").
+			at(c05Pet, "STATUS_UNSPECIFIED_VALUE"),
+		c05New("ENUM_ZERO_VALUE_SUFFIX").
+			sub(c05Store, "STORE_KIND_UNSPECIFIED = 0;", "STORE_KIND_ZERO = 0;").
+			at(c05Store, "STORE_KIND_ZERO"),
+		// a non-zero value that carries the suffix is fine
+		c05New("ENUM_ZERO_VALUE_SUFFIX").
+			sub(c05Kind, "PET_KIND_CAT = 2;", "PET_KIND_CAT_UNSPECIFIED = 2;"),
+		// proto2: the zero value is not the first one
+		c05NewLegacy("ENUM_ZERO_VALUE_SUFFIX").
+			sub(c05Legacy, "  // Not known.\n  LEGACY_KIND_UNSPECIFIED = 0;\n  // First.\n  LEGACY_KIND_ONE = 1;\n", "  // First.\n  LEGACY_KIND_ONE = 1;\n  // Zero.\n  LEGACY_KIND_ZERO = 0;\n").
+			at(c05Legacy, "LEGACY_KIND_ZERO").allow("ENUM_FIRST_VALUE_ZERO"),
+	)
+	// ENUM_FIRST_VALUE_ZERO (annotation at the number of the first value); needs proto2
+	add(
+		c05NewLegacy("ENUM_FIRST_VALUE_ZERO"),
+		c05NewLegacy("ENUM_FIRST_VALUE_ZERO").
+			sub(c05Legacy, "  // Not known.\n  LEGACY_KIND_UNSPECIFIED = 0;\n  // First.\n  LEGACY_KIND_ONE = 1;\n", "  // First.\n  LEGACY_KIND_ONE = 1;\n  // Not known.\n  LEGACY_KIND_UNSPECIFIED = 0;\n").
+			atAfter(c05Legacy, "LEGACY_KIND_ONE = "),
+		c05NewLegacy("ENUM_FIRST_VALUE_ZERO").
+			sub(c05Legacy, "    // Not known.\n    LEGACY_STATE_UNSPECIFIED = 0;\n    // Second.\n    LEGACY_STATE_TWO = 2;\n", "    // Second.\n    LEGACY_STATE_TWO = 2;\n    // Not known.\n    LEGACY_STATE_UNSPECIFIED = 0;\n").
+			atAfter(c05Legacy, "LEGACY_STATE_TWO = "),
+		c05NewLegacy("ENUM_FIRST_VALUE_ZERO").
+			sub(c05Legacy, "  // Not known.\n  LEGACY_KIND_UNSPECIFIED = 0;\n", "").
+			atAfter(c05Legacy, "LEGACY_KIND_ONE = "),
+	)
+	// ENUM_NO_ALLOW_ALIAS (annotation at the option statement)
+	add(
+		c05New("ENUM_NO_ALLOW_ALIAS").
+			sub(c05Kind, "enum PetKind {\n", "enum PetKind {\n  option allow_alias = true;\n").
+			sub(c05Kind, "  // A cat.\n", "  // A puppy is a dog.\n  PET_KIND_PUPPY = 1;\n  // A cat.\n").
+			at(c05Kind, "option allow_alias"),
+		c05New("ENUM_NO_ALLOW_ALIAS").
+			sub(c05Pet, "  enum Status {\n", "  enum Status {\n    option allow_alias = true;\n").
+			sub(c05Pet, "    // Alive and well.\n", "    // Same as active.\n    STATUS_ALIVE = 1;\n    // Alive and well.\n").
+			at(c05Pet, "option allow_alias"),
+		c05New("ENUM_NO_ALLOW_ALIAS").
+			sub(c05Pet, "    enum Color {\n", "    enum Color {\n      option allow_alias = true;\n").
+			sub(c05Pet, "      // Red.\n", "      // Crimson is red.\n      COLOR_CRIMSON = 1;\n      // Red.\n").
+			at(c05Pet, "option allow_alias"),
+	)
+}
+
+// ---------------------------------------------------------------------------------------------
+// catalogue: fields
+
+func c05CatFields(add func(...*c05Case)) {
+	// FIELD_LOWER_SNAKE_CASE (annotation at the field name)
+	add(
+		c05New("FIELD_LOWER_SNAKE_CASE").
+			sub(c05Pet, "string pet_name = 1;", "string petName = 1;").
+			at(c05Pet, "petName"),
+		c05New("FIELD_LOWER_SNAKE_CASE").
+			sub(c05Pet, "string label = 1;", "string Label = 1;").
+			at(c05Pet, "Label = 1"),
+		c05New("FIELD_LOWER_SNAKE_CASE").
+			sub(c05Pet, "string owner_id = 6;", "string ownerId = 6;").
+			at(c05Pet, "ownerId"),
+		c05New("FIELD_LOWER_SNAKE_CASE").
+			sub(c05Pet, "map<string, string> labels = 5;", "map<string, string> petLabels = 5;").
+			at(c05Pet, "petLabels"),
+		c05New("FIELD_LOWER_SNAKE_CASE").
+			sub(c05Pet, "repeated Tag tags = 4;", "repeated Tag Tags = 4;").
+			at(c05Pet, "Tags = 4"),
+		c05New("FIELD_LOWER_SNAKE_CASE").
+			sub(c05Service, "string pet_name = 1;", "string PET_NAME = 1;").
+			at(c05Service, "PET_NAME"),
+		c05New("FIELD_LOWER_SNAKE_CASE").
+			sub(c05Store, "string store_name = 1;", "string store_Name = 1;").
+			at(c05Store, "store_Name"),
+		c05NewLegacy("FIELD_LOWER_SNAKE_CASE").
+			sub(c05Legacy, "optional int32 code = 1;", "optional int32 errorCode = 1;").
+			at(c05Legacy, "errorCode"),
+		// leading / trailing underscores are not lower_snake_case; digits are fine
+		c05New("FIELD_LOWER_SNAKE_CASE").
+			sub(c05Pet, "string pet_name = 1;", "string pet_name_ = 1;").
+			at(c05Pet, "pet_name_ = 1"),
+		c05New("FIELD_LOWER_SNAKE_CASE").
+			sub(c05Pet, "string label = 1;", "string _label = 1;").
+			at(c05Pet, "_label = 1"),
+		c05New("FIELD_LOWER_SNAKE_CASE").
+			sub(c05Pet, "string pet_name = 1;", "string pet_name2 = 1;").sub(c05Pet, "string label = 1;", "string label_2 = 1;"),
+		// extension fields are fields
+		c05NewLegacy("FIELD_LOWER_SNAKE_CASE").
+			sub(c05Legacy, "  optional string pet_id = 2;\n", "  optional string pet_id = 2;\n  extensions 100 to 199;\n").
+			sub(c05Legacy, "// LegacyPet is a proto2 message.\n", "extend LegacyPet {\n  // An extension.\n  optional string extName = 100;\n}\n\n// LegacyPet is a proto2 message.\n").
+			at(c05Legacy, "extName"),
+	)
+	// FIELD_NOT_REQUIRED (v2 only; annotation at the field name)
+	add(
+		c05NewLegacy("FIELD_NOT_REQUIRED"),
+		c05NewLegacy("FIELD_NOT_REQUIRED").
+			sub(c05Legacy, "optional string pet_id = 2;", "required string pet_id = 2;").
+			at(c05Legacy, "pet_id"),
+		c05NewLegacy("FIELD_NOT_REQUIRED").
+			sub(c05Legacy, "optional int32 code = 1;", "required int32 code = 1;").
+			at(c05Legacy, "code = 1"),
+		c05NewLegacy("FIELD_NOT_REQUIRED").
+			sub(c05Legacy, "optional string pet_name = 1;", "required string pet_name = 1;").
+			sub(c05Legacy, "optional string pet_id = 2;", "required string pet_id = 2;").
+			at(c05Legacy, "pet_name").at(c05Legacy, "pet_id"),
+	)
+	// FIELD_NO_DESCRIPTOR (v1beta1 only): any capitalization of "descriptor" with prefix/suffix underscores
+	add(
+		c05New("FIELD_NO_DESCRIPTOR").
+			sub(c05Pet, "string label = 1;", "string descriptor = 1;").
+			at(c05Pet, "descriptor = 1"),
+		c05New("FIELD_NO_DESCRIPTOR").
+			sub(c05Pet, "string pet_name = 1;", "string _Descriptor_ = 1;").
+			at(c05Pet, "_Descriptor_").allow("FIELD_LOWER_SNAKE_CASE"),
+		c05New("FIELD_NO_DESCRIPTOR").
+			sub(c05Store, "string store_name = 1;", "string DESCRIPTOR = 1;").
+			at(c05Store, "DESCRIPTOR").allow("FIELD_LOWER_SNAKE_CASE"),
+		// a field that merely contains the word is fine
+		c05New("FIELD_NO_DESCRIPTOR").
+			sub(c05Pet, "string label = 1;", "string pet_descriptor = 1;"),
+	)
+}
+
+// ---------------------------------------------------------------------------------------------
+// catalogue: file names, packages, directories
+
+func c05Shop(dir, pkg, name string) (string, string) {
+	return dir + "/" + name, "syntax = \"proto3\";\n\npackage " + pkg + ";\n\n// Shop is a shop.\nmessage Shop {}\n"
+}
+
+func c05CatFilesPackages(add func(...*c05Case)) {
+	// FILE_LOWER_SNAKE_CASE (annotation without location on the file); only the base name counts
+	add(
+		c05New("FILE_LOWER_SNAKE_CASE").
+			move(c05Kind, "acme/pet/v1/PetKind.proto").fix(c05Pet, "acme/pet/v1/pet_kind.proto", "acme/pet/v1/PetKind.proto").
+			noLoc("acme/pet/v1/PetKind.proto"),
+		c05New("FILE_LOWER_SNAKE_CASE").
+			move(c05Store, "acme/store/v1/storeInfo.proto").fix(c05Pet, "acme/store/v1/store.proto", "acme/store/v1/storeInfo.proto").
+			noLoc("acme/store/v1/storeInfo.proto"),
+		c05New("FILE_LOWER_SNAKE_CASE").
+			move(c05Service, "acme/pet/v1/Pet_Service.proto").
+			noLoc("acme/pet/v1/Pet_Service.proto"),
+		c05New("FILE_LOWER_SNAKE_CASE").
+			move(c05Kind, "acme/pet/v1/pet_kind_.proto").fix(c05Pet, "acme/pet/v1/pet_kind.proto", "acme/pet/v1/pet_kind_.proto").
+			noLoc("acme/pet/v1/pet_kind_.proto"),
+		// the directory is not part of the file name
+		c05New("FILE_LOWER_SNAKE_CASE").
+			add(c05Shop("acme/Shop_Dir/v1", "acme.shopdir.v1", "shop_info.proto")).nocat(),
+	)
+	// PACKAGE_DEFINED (annotation without location)
+	add(
+		c05New("PACKAGE_DEFINED").
+			add("nopkg.proto", "syntax = \"proto3\";\n\n// Loose is in no package.\nmessage Loose {}\n").
+			noLoc("nopkg.proto"),
+		c05New("PACKAGE_DEFINED").
+			add("nopkg.proto", "syntax = \"proto3\";\n\n// Loose is in no package.\nmessage Loose {}\n").
+			add("misc/nopkg_too.proto", "syntax = \"proto3\";\n\n// Looser is in no package.\nmessage Looser {}\n").
+			noLoc("nopkg.proto").noLoc("misc/nopkg_too.proto").allow("PACKAGE_SAME_DIRECTORY"),
+	)
+	// PACKAGE_DIRECTORY_MATCH (annotation at the package statement)
+	add(
+		c05New("PACKAGE_DIRECTORY_MATCH").
+			move(c05Store, "acme/shop/v1/store.proto").fix(c05Pet, "acme/store/v1/store.proto", "acme/shop/v1/store.proto").
+			at("acme/shop/v1/store.proto", "package acme.store.v1;"),
+		c05New("PACKAGE_DIRECTORY_MATCH").
+			add(c05Shop("acme/shop", "acme.shop.v1", "shop.proto")).
+			at("acme/shop/shop.proto", "package acme.shop.v1;"),
+		c05New("PACKAGE_DIRECTORY_MATCH").
+			add("shop.proto", "syntax = \"proto3\";\n\npackage acme.shop.v1;\n\n// Shop is a shop.\nmessage Shop {}\n").
+			at("shop.proto", "package acme.shop.v1;"),
+		c05New("PACKAGE_DIRECTORY_MATCH").
+			add(c05Shop("acme/shop/v1/extra", "acme.shop.v1", "shop.proto")).
+			at("acme/shop/v1/extra/shop.proto", "package acme.shop.v1;"),
+		c05New("PACKAGE_DIRECTORY_MATCH").
+			add(c05Shop("v1/shop/acme", "acme.shop.v1", "shop.proto")).
+			at("v1/shop/acme/shop.proto", "package acme.shop.v1;"),
+	)
+	// PACKAGE_SAME_DIRECTORY: every file of the package is reported (at its package statement)
+	add(
+		c05New("PACKAGE_SAME_DIRECTORY").
+			move(c05Kind, "acme/pet/v1/sub/pet_kind.proto").fix(c05Pet, "acme/pet/v1/pet_kind.proto", "acme/pet/v1/sub/pet_kind.proto").
+			at(c05Pet, "package acme.pet.v1;").at(c05Service, "package acme.pet.v1;").at("acme/pet/v1/sub/pet_kind.proto", "package acme.pet.v1;").
+			allow("PACKAGE_DIRECTORY_MATCH"),
+		c05New("PACKAGE_SAME_DIRECTORY").
+			add(c05Shop("acme/shop/v1", "acme.store.v1", "shop.proto")).
+			at(c05Store, "package acme.store.v1;").at("acme/shop/v1/shop.proto", "package acme.store.v1;").
+			allow("PACKAGE_DIRECTORY_MATCH"),
+	)
+	// DIRECTORY_SAME_PACKAGE: every file of the directory is reported
+	add(
+		c05New("DIRECTORY_SAME_PACKAGE").
+			add(c05Shop("acme/pet/v1", "acme.shop.v1", "shop.proto")).
+			at(c05Pet, "package acme.pet.v1;").at(c05Kind, "package acme.pet.v1;").at(c05Service, "package acme.pet.v1;").at("acme/pet/v1/shop.proto", "package acme.shop.v1;").
+			allow("PACKAGE_DIRECTORY_MATCH"),
+		c05New("DIRECTORY_SAME_PACKAGE").
+			add(c05Shop("acme/store/v1", "acme.store.v1beta1", "shop.proto")).
+			at(c05Store, "package acme.store.v1;").at("acme/store/v1/shop.proto", "package acme.store.v1beta1;").
+			allow("PACKAGE_DIRECTORY_MATCH"),
+		c05New("DIRECTORY_SAME_PACKAGE").
+			add("acme/store/v1/nopkg.proto", "syntax = \"proto3\";\n\n// Loose is in no package.\nmessage Loose {}\n").
+			at(c05Store, "package acme.store.v1;").noLoc("acme/store/v1/nopkg.proto").
+			allow("PACKAGE_DEFINED", "PACKAGE_DIRECTORY_MATCH"),
+	)
+	// PACKAGE_LOWER_SNAKE_CASE (annotation at the package statement)
+	add(
+		c05New("PACKAGE_LOWER_SNAKE_CASE").
+			add(c05Shop("acme/Shop/v1", "acme.Shop.v1", "shop.proto")).
+			at("acme/Shop/v1/shop.proto", "package acme.Shop.v1;"),
+		c05New("PACKAGE_LOWER_SNAKE_CASE").
+			add(c05Shop("acme/petFood/v1", "acme.petFood.v1", "shop.proto")).
+			at("acme/petFood/v1/shop.proto", "package acme.petFood.v1;"),
+		c05New("PACKAGE_LOWER_SNAKE_CASE").
+			add(c05Shop("ACME/shop/v1", "ACME.shop.v1", "shop.proto")).
+			at("ACME/shop/v1/shop.proto", "package ACME.shop.v1;"),
+		c05New("PACKAGE_LOWER_SNAKE_CASE").
+			add(c05Shop("acme/pet_food/v1", "acme.pet_food.v1", "shop.proto")),
+	)
+	// PACKAGE_VERSION_SUFFIX: last component v\d+, v\d+test.*, v\d+(alpha|beta)\d+, v\d+p\d+(alpha|beta)\d+, numbers >= 1
+	bad := c05New("PACKAGE_VERSION_SUFFIX")
+	for _, last := range []string{"v0", "v1alpha0", "v0beta1", "vv1", "v1gamma1", "version1", "v1p0beta1", "v1rc1"} {
+		bad.add(c05Shop("acme/shop/"+last, "acme.shop."+last, "shop.proto")).at("acme/shop/"+last+"/shop.proto", "package acme.shop."+last+";")
+	}
+	good := c05New("PACKAGE_VERSION_SUFFIX")
+	for _, last := range []string{"v2", "v12", "v2beta1", "v1alpha3", "v1test", "v1testing", "v1p1alpha1", "v3p2beta12"} {
+		good.add(c05Shop("acme/shop/"+last, "acme.shop."+last, "shop.proto"))
+	}
+	add(
+		bad, good,
+		c05New("PACKAGE_VERSION_SUFFIX").
+			add(c05Shop("acme/shop", "acme.shop", "shop.proto")).
+			at("acme/shop/shop.proto", "package acme.shop;"),
+		c05New("PACKAGE_VERSION_SUFFIX").
+			add(c05Shop("acme/v1/shop", "acme.v1.shop", "shop.proto")).
+			at("acme/v1/shop/shop.proto", "package acme.v1.shop;"),
+		c05New("PACKAGE_VERSION_SUFFIX").
+			add(c05Shop("shop", "shop", "shop.proto")).
+			at("shop/shop.proto", "package shop;"),
+	)
+	// SYNTAX_SPECIFIED (annotation without location)
+	add(
+		c05NewLegacy("SYNTAX_SPECIFIED"),
+		c05NewLegacy("SYNTAX_SPECIFIED").
+			sub(c05Legacy, "syntax = \"proto2\";\n\n", "").
+			noLoc(c05Legacy),
+		c05New("SYNTAX_SPECIFIED").
+			add("acme/shop/v1/shop.proto", "package acme.shop.v1;\n\n// Shop is a shop.\nmessage Shop {}\n").
+			noLoc("acme/shop/v1/shop.proto"),
+	)
+}
+
+// ---------------------------------------------------------------------------------------------
+// catalogue: imports
+
+func c05CatImports(add func(...*c05Case)) {
+	// IMPORT_USED (annotation at the import statement)
+	add(
+		c05New("IMPORT_USED").
+			sub(c05Service, "import \"acme/pet/v1/pet.proto\";\n", "import \"acme/pet/v1/pet.proto\";\nimport \"acme/pet/v1/pet_kind.proto\";\n").
+			at(c05Service, "import \"acme/pet/v1/pet_kind.proto\";"),
+		c05New("IMPORT_USED").
+			sub(c05Store, "package acme.store.v1;\n", "package acme.store.v1;\n\nimport \"google/protobuf/empty.proto\";\n").
+			at(c05Store, "import \"google/protobuf/empty.proto\";"),
+		c05New("IMPORT_USED").
+			sub(c05Pet, "    // A store.\n    acme.store.v1.Store store = 7;\n", "").
+			at(c05Pet, "import \"acme/store/v1/store.proto\";"),
+		c05New("IMPORT_USED").
+			sub(c05Kind, "package acme.pet.v1;\n", "package acme.pet.v1;\n\nimport \"acme/store/v1/store.proto\";\nimport \"google/protobuf/any.proto\";\n").
+			at(c05Kind, "import \"acme/store/v1/store.proto\";").at(c05Kind, "import \"google/protobuf/any.proto\";"),
+	)
+	// IMPORT_NO_PUBLIC (annotation at the import statement)
+	add(
+		c05New("IMPORT_NO_PUBLIC").
+			sub(c05Pet, "import \"acme/pet/v1/pet_kind.proto\";", "import public \"acme/pet/v1/pet_kind.proto\";").
+			at(c05Pet, "import public \"acme/pet/v1/pet_kind.proto\";"),
+		c05New("IMPORT_NO_PUBLIC").
+			sub(c05Pet, "import \"acme/store/v1/store.proto\";", "import public \"acme/store/v1/store.proto\";").
+			at(c05Pet, "import public \"acme/store/v1/store.proto\";"),
+		c05New("IMPORT_NO_PUBLIC").
+			sub(c05Service, "import \"acme/pet/v1/pet.proto\";", "import public \"acme/pet/v1/pet.proto\";").
+			at(c05Service, "import public \"acme/pet/v1/pet.proto\";"),
+	)
+	// PACKAGE_NO_IMPORT_CYCLE: the packages import each other through different files; the imports that close the cycle are reported
+	add(
+		c05New("PACKAGE_NO_IMPORT_CYCLE").
+			sub(c05Store, "package acme.store.v1;\n", "package acme.store.v1;\n\nimport \"acme/pet/v1/pet_kind.proto\";\n").
+			sub(c05Store, "  // Kind of the store.\n", "  // Favourite animal.\n  acme.pet.v1.PetKind favourite = 3;\n  // Kind of the store.\n").
+			at(c05Pet, "import \"acme/store/v1/store.proto\";").at(c05Store, "import \"acme/pet/v1/pet_kind.proto\";"),
+		c05New("PACKAGE_NO_IMPORT_CYCLE").
+			add("acme/a/v1/a1.proto", "syntax = \"proto3\";\n\npackage acme.a.v1;\n\nimport \"acme/b/v1/b1.proto\";\n\n// A1 uses B1.\nmessage A1 {\n  // B.\n  acme.b.v1.B1 b = 1;\n}\n").
+			add("acme/a/v1/a2.proto", "syntax = \"proto3\";\n\npackage acme.a.v1;\n\n// A2 is a leaf.\nmessage A2 {}\n").
+			add("acme/b/v1/b1.proto", "syntax = \"proto3\";\n\npackage acme.b.v1;\n\nimport \"acme/c/v1/c1.proto\";\n\n// B1 uses C1.\nmessage B1 {\n  // C.\n  acme.c.v1.C1 c = 1;\n}\n").
+			add("acme/c/v1/c1.proto", "syntax = \"proto3\";\n\npackage acme.c.v1;\n\nimport \"acme/a/v1/a2.proto\";\n\n// C1 uses A2.\nmessage C1 {\n  // A.\n  acme.a.v1.A2 a = 1;\n}\n").
+			at("acme/a/v1/a1.proto", "import \"acme/b/v1/b1.proto\";").at("acme/b/v1/b1.proto", "import \"acme/c/v1/c1.proto\";").at("acme/c/v1/c1.proto", "import \"acme/a/v1/a2.proto\";"),
+	)
+	// STABLE_PACKAGE_NO_IMPORT_UNSTABLE (v2, in no category)
+	draft := "syntax = \"proto3\";\n\npackage acme.store.v1beta1;\n\n// Draft is unstable.\nmessage Draft {}\n"
+	add(
+		c05New("STABLE_PACKAGE_NO_IMPORT_UNSTABLE").
+			add("acme/store/v1beta1/draft.proto", draft).
+			sub(c05Pet, "import \"acme/store/v1/store.proto\";\n", "import \"acme/store/v1/store.proto\";\nimport \"acme/store/v1beta1/draft.proto\";\n").
+			sub(c05Pet, "  // Optional nickname.\n", "  // A draft.\n  acme.store.v1beta1.Draft draft = 9;\n  // Optional nickname.\n").
+			at(c05Pet, "import \"acme/store/v1beta1/draft.proto\";"),
+		c05New("STABLE_PACKAGE_NO_IMPORT_UNSTABLE").
+			add("acme/store/v1alpha2/draft.proto", strings.ReplaceAll(draft, "v1beta1", "v1alpha2")).
+			sub(c05Store, "package acme.store.v1;\n", "package acme.store.v1;\n\nimport \"acme/store/v1alpha2/draft.proto\";\n").
+			sub(c05Store, "  // Kind of the store.\n", "  // A draft.\n  acme.store.v1alpha2.Draft draft = 3;\n  // Kind of the store.\n").
+			at(c05Store, "import \"acme/store/v1alpha2/draft.proto\";"),
+		// unstable may import stable and unstable
+		c05New("STABLE_PACKAGE_NO_IMPORT_UNSTABLE").
+			add("acme/store/v1beta1/draft.proto", "syntax = \"proto3\";\n\npackage acme.store.v1beta1;\n\nimport \"acme/store/v1/store.proto\";\nimport \"acme/store/v1alpha1/sketch.proto\";\n\n// Draft is unstable.\nmessage Draft {\n  // Store.\n  acme.store.v1.Store store = 1;\n  // Sketch.\n  acme.store.v1alpha1.Sketch sketch = 2;\n}\n").
+			add("acme/store/v1alpha1/sketch.proto", "syntax = \"proto3\";\n\npackage acme.store.v1alpha1;\n\n// Sketch is unstable.\nmessage Sketch {}\n"),
+	)
+}
+
+// ---------------------------------------------------------------------------------------------
+// catalogue: PACKAGE_SAME_<option>: all files of a package have the same value for the option; an absent
+// option differs from any written value (for java_multiple_files also from an explicit false)
+
+func c05CatSameOption(add func(...*c05Case)) {
+	petFiles := []string{c05Pet, c05Kind, c05Service}
+	// combos: one entry per file of acme.pet.v1; "" = option not written
+	plant := func(rule, option string, values []string, storeValue string) *c05Case {
+		c := c05New(rule)
+		distinct := map[string]bool{}
+		for i, v := range values {
+			distinct[v] = true
+			if v != "" {
+				c.sub(petFiles[i], "package acme.pet.v1;\n", "package acme.pet.v1;\n\noption "+option+" = "+v+";\n")
+			}
+		}
+		if storeValue != "" {
+			c.sub(c05Store, "package acme.store.v1;\n", "package acme.store.v1;\n\noption "+option+" = "+storeValue+";\n")
+		}
+		if len(c.desc) == 0 {
+			c.desc = append(c.desc, "option "+option+" written in no file")
+		}
+		if len(distinct) > 1 {
+			for i, v := range values {
+				if v == "" {
+					c.noLoc(petFiles[i])
+				} else {
+					c.at(petFiles[i], "option "+option)
+				}
+			}
+		}
+		return c
+	}
+	for _, o := range []struct{ rule, option string }{
+		{"PACKAGE_SAME_GO_PACKAGE", "go_package"},
+		{"PACKAGE_SAME_JAVA_PACKAGE", "java_package"},
+		{"PACKAGE_SAME_CSHARP_NAMESPACE", "csharp_namespace"},
+		{"PACKAGE_SAME_PHP_NAMESPACE", "php_namespace"},
+		{"PACKAGE_SAME_RUBY_PACKAGE", "ruby_package"},
+		{"PACKAGE_SAME_SWIFT_PREFIX", "swift_prefix"},
+	} {
+		x, y, z := `"acme.pet.x"`, `"acme.pet.y"`, `"acme.store.z"`
+		add(
+			plant(o.rule, o.option, []string{"", "", ""}, z),
+			plant(o.rule, o.option, []string{x, x, x}, z),
+			plant(o.rule, o.option, []string{x, x, y}, ""),
+			plant(o.rule, o.option, []string{x, y, x}, x),
+			plant(o.rule, o.option, []string{y, x, x}, ""),
+			plant(o.rule, o.option, []string{x, "", x}, ""),
+			plant(o.rule, o.option, []string{"", "", y}, y),
+			plant(o.rule, o.option, []string{x, "", ""}, ""),
+		)
+	}
+	jmf := func(values ...string) *c05Case {
+		return plant("PACKAGE_SAME_JAVA_MULTIPLE_FILES", "java_multiple_files", values, "")
+	}
+	add(
+		jmf("", "", ""), jmf("true", "true", "true"), jmf("false", "false", "false"),
+		plant("PACKAGE_SAME_JAVA_MULTIPLE_FILES", "java_multiple_files", []string{"true", "true", "true"}, "false"),
+		jmf("true", "false", "true"), jmf("true", "true", "false"), jmf("false", "true", "true"),
+		jmf("true", "", "true"), jmf("", "", "true"), jmf("true", "", ""),
+		jmf("false", "", "false"), jmf("", "false", ""), jmf("false", "", ""), jmf("", "", "false"), jmf("false", "false", ""),
+	)
+}
+
+// ---------------------------------------------------------------------------------------------
+// catalogue: RPCs
+
+func c05CatRPC(add func(...*c05Case)) {
+	// RPC_NO_CLIENT_STREAMING / RPC_NO_SERVER_STREAMING (annotation at the RPC)
+	add(
+		c05New("RPC_NO_CLIENT_STREAMING").
+			sub(c05Service, "rpc PutPet(PutPetRequest)", "rpc PutPet(stream PutPetRequest)").
+			at(c05Service, "rpc PutPet("),
+		c05New("RPC_NO_CLIENT_STREAMING").
+			sub(c05Service, "rpc DeletePet(PetAdminServiceDeletePetRequest)", "rpc DeletePet(stream PetAdminServiceDeletePetRequest)").
+			at(c05Service, "rpc DeletePet("),
+		c05New("RPC_NO_CLIENT_STREAMING").
+			sub(c05Store, "rpc ListStores(ListStoresRequest)", "rpc ListStores(stream ListStoresRequest)").
+			at(c05Store, "rpc ListStores("),
+		c05New("RPC_NO_SERVER_STREAMING").
+			sub(c05Service, "returns (GetPetResponse)", "returns (stream GetPetResponse)").
+			at(c05Service, "rpc GetPet("),
+		c05New("RPC_NO_SERVER_STREAMING").
+			sub(c05Service, "returns (PutPetResponse)", "returns (stream PutPetResponse)").
+			at(c05Service, "rpc PutPet("),
+		c05New("RPC_NO_SERVER_STREAMING").
+			sub(c05Store, "returns (ListStoresResponse)", "returns (stream ListStoresResponse)").
+			at(c05Store, "rpc ListStores("),
+		c05New("RPC_NO_CLIENT_STREAMING").also("RPC_NO_SERVER_STREAMING").
+			sub(c05Service, "rpc PutPet(PutPetRequest) returns (PutPetResponse)", "rpc PutPet(stream PutPetRequest) returns (stream PutPetResponse)").
+			at(c05Service, "rpc PutPet(").atRule("RPC_NO_SERVER_STREAMING", c05Service, "rpc PutPet("),
+		// a server-streaming RPC is not client streaming and vice versa
+		c05New("RPC_NO_CLIENT_STREAMING").
+			sub(c05Service, "returns (GetPetResponse)", "returns (stream GetPetResponse)").allow("RPC_NO_SERVER_STREAMING"),
+		c05New("RPC_NO_SERVER_STREAMING").
+			sub(c05Service, "rpc PutPet(PutPetRequest)", "rpc PutPet(stream PutPetRequest)").allow("RPC_NO_CLIENT_STREAMING"),
+	)
+	// RPC_REQUEST_STANDARD_NAME: RPCNameRequest or ServiceNameRPCNameRequest (annotation at the request type reference)
+	add(
+		c05New("RPC_REQUEST_STANDARD_NAME").
+			subAll(c05Service, "GetPetRequest", "GetPetReq").
+			at(c05Service, "GetPetReq)"),
+		c05New("RPC_REQUEST_STANDARD_NAME").
+			subAll(c05Service, "PutPetRequest", "PetRequest").
+			atAfter(c05Service, "rpc PutPet("),
+		c05New("RPC_REQUEST_STANDARD_NAME").
+			subAll(c05Service, "PetAdminServiceDeletePetRequest", "AdminDeletePetRequest").
+			at(c05Service, "AdminDeletePetRequest)"),
+		c05New("RPC_REQUEST_STANDARD_NAME").
+			subAll(c05Store, "ListStoresRequest", "ListStoresRequestMessage").
+			at(c05Store, "ListStoresRequestMessage)"),
+		c05New("RPC_REQUEST_STANDARD_NAME").
+			sub(c05Service, "rpc GetPet(GetPetRequest)", "rpc GetPet(acme.store.v1.Store)").fix(c05Service, "import \"acme/pet/v1/pet.proto\";\n", "import \"acme/pet/v1/pet.proto\";\nimport \"acme/store/v1/store.proto\";\n").
+			at(c05Service, "acme.store.v1.Store)"),
+		// qualified references to standard names are fine, so is the service-prefixed form
+		c05New("RPC_REQUEST_STANDARD_NAME").also("RPC_RESPONSE_STANDARD_NAME").
+			sub(c05Service, "rpc GetPet(GetPetRequest) returns (GetPetResponse)", "rpc GetPet(acme.pet.v1.GetPetRequest) returns (.acme.pet.v1.GetPetResponse)"),
+		c05New("RPC_REQUEST_STANDARD_NAME").also("RPC_RESPONSE_STANDARD_NAME").
+			subAll(c05Service, "GetPetRequest", "PetServiceGetPetRequest").subAll(c05Service, "GetPetResponse", "PetServiceGetPetResponse"),
+	)
+	// RPC_RESPONSE_STANDARD_NAME
+	add(
+		c05New("RPC_RESPONSE_STANDARD_NAME").
+			subAll(c05Service, "GetPetResponse", "GetPetResp").
+			at(c05Service, "GetPetResp)"),
+		c05New("RPC_RESPONSE_STANDARD_NAME").
+			subAll(c05Service, "PutPetResponse", "PutPetResult").
+			at(c05Service, "PutPetResult)"),
+		c05New("RPC_RESPONSE_STANDARD_NAME").
+			subAll(c05Service, "PetAdminServiceDeletePetResponse", "PetAdminDeletePetResponse").
+			at(c05Service, "PetAdminDeletePetResponse)"),
+		c05New("RPC_RESPONSE_STANDARD_NAME").
+			subAll(c05Store, "ListStoresResponse", "StoresResponse").
+			at(c05Store, "StoresResponse)"),
+		c05New("RPC_RESPONSE_STANDARD_NAME").
+			sub(c05Service, "returns (GetPetResponse)", "returns (Pet)").
+			at(c05Service, "Pet);"),
+	)
+	// RPC_REQUEST_RESPONSE_UNIQUE: request and response types are used in one RPC only (every RPC involved is reported, at the RPC)
+	add(
+		c05New("RPC_REQUEST_RESPONSE_UNIQUE").set().
+			sub(c05Service, "rpc PutPet(PutPetRequest)", "rpc PutPet(GetPetRequest)").
+			at(c05Service, "rpc GetPet(").at(c05Service, "rpc PutPet(").allow("RPC_REQUEST_STANDARD_NAME"),
+		c05New("RPC_REQUEST_RESPONSE_UNIQUE").set().
+			sub(c05Service, "returns (PetAdminServiceDeletePetResponse)", "returns (PutPetResponse)").
+			at(c05Service, "rpc PutPet(").at(c05Service, "rpc DeletePet(").allow("RPC_RESPONSE_STANDARD_NAME"),
+		c05New("RPC_REQUEST_RESPONSE_UNIQUE").set().
+			sub(c05Service, "rpc PutPet(PutPetRequest) returns (PutPetResponse)", "rpc PutPet(PutPetRequest) returns (PutPetRequest)").
+			at(c05Service, "rpc PutPet(").allow("RPC_RESPONSE_STANDARD_NAME"),
+		c05New("RPC_REQUEST_RESPONSE_UNIQUE").set().
+			sub(c05Service, "rpc PutPet(PutPetRequest) returns (PutPetResponse)", "rpc PutPet(PutPetRequest) returns (GetPetRequest)").
+			at(c05Service, "rpc GetPet(").at(c05Service, "rpc PutPet(").allow("RPC_RESPONSE_STANDARD_NAME"),
+		c05New("RPC_REQUEST_RESPONSE_UNIQUE").set().
+			add("acme/pet/v1/pet_search_service.proto", "syntax = \"proto3\";\n\npackage acme.pet.v1;\n\nimport \"acme/pet/v1/pet_service.proto\";\n\n// PetSearchService searches.\nservice PetSearchService {\n  // SearchPet searches.\n  rpc SearchPet(SearchPetRequest) returns (GetPetResponse);\n}\n\n// SearchPetRequest is empty.\nmessage SearchPetRequest {}\n").
+			at(c05Service, "rpc GetPet(").at("acme/pet/v1/pet_search_service.proto", "rpc SearchPet(").allow("RPC_RESPONSE_STANDARD_NAME"),
+		c05New("RPC_REQUEST_RESPONSE_UNIQUE").set().
+			sub(c05Service, "import \"acme/pet/v1/pet.proto\";\n", "import \"acme/pet/v1/pet.proto\";\nimport \"google/protobuf/empty.proto\";\n").
+			sub(c05Service, "rpc GetPet(GetPetRequest)", "rpc GetPet(google.protobuf.Empty)").
+			sub(c05Service, "rpc PutPet(PutPetRequest) returns (PutPetResponse)", "rpc PutPet(PutPetRequest) returns (google.protobuf.Empty)").
+			at(c05Service, "rpc GetPet(").at(c05Service, "rpc PutPet(").allow("RPC_REQUEST_STANDARD_NAME", "RPC_RESPONSE_STANDARD_NAME"),
+	)
+}
+
+// ---------------------------------------------------------------------------------------------
+// catalogue: rule options read from buf.yaml (every config version): custom suffixes, allow_* flags, comment ignores
+
+func c05CatOptions(add func(...*c05Case)) {
+	// enum_zero_value_suffix: _NONE
+	add(
+		c05New("ENUM_ZERO_VALUE_SUFFIX").option("  enum_zero_value_suffix: _NONE\n").
+			at(c05Kind, "PET_KIND_UNSPECIFIED").at(c05Pet, "COLOR_UNSPECIFIED").at(c05Pet, "STATUS_UNSPECIFIED").at(c05Store, "STORE_KIND_UNSPECIFIED"),
+		c05New("ENUM_ZERO_VALUE_SUFFIX").option("  enum_zero_value_suffix: _NONE\n").
+			sub(c05Kind, "PET_KIND_UNSPECIFIED", "PET_KIND_NONE").sub(c05Pet, "COLOR_UNSPECIFIED", "COLOR_NONE").sub(c05Pet, "STATUS_UNSPECIFIED", "STATUS_NONE").sub(c05Store, "STORE_KIND_UNSPECIFIED", "STORE_KIND_NONE"),
+		c05New("ENUM_ZERO_VALUE_SUFFIX").option("  enum_zero_value_suffix: _NONE\n").
+			sub(c05Kind, "PET_KIND_UNSPECIFIED", "PET_KIND_NONE").sub(c05Pet, "COLOR_UNSPECIFIED", "COLOR_NONE").sub(c05Pet, "STATUS_UNSPECIFIED", "STATUS_NONE").
+			at(c05Store, "STORE_KIND_UNSPECIFIED"),
+	)
+	// service_suffix: API
+	add(
+		c05New("SERVICE_SUFFIX").option("  service_suffix: API\n").
+			at(c05Service, "PetService {").at(c05Service, "PetAdminService {").at(c05Store, "StoreService {"),
+		c05New("SERVICE_SUFFIX").option("  service_suffix: API\n").
+			sub(c05Service, "service PetService {", "service PetAPI {").subAll(c05Service, "PetAdminService", "PetAdminAPI").sub(c05Store, "service StoreService {", "service StoreAPI {"),
+		c05New("SERVICE_SUFFIX").option("  service_suffix: API\n").
+			sub(c05Service, "service PetService {", "service PetAPI {").sub(c05Store, "service StoreService {", "service StoreAPI {").
+			at(c05Service, "PetAdminService {"),
+	)
+	// rpc_allow_same_request_response
+	add(
+		c05New("RPC_REQUEST_RESPONSE_UNIQUE").set().option("  rpc_allow_same_request_response: true\n").
+			sub(c05Service, "rpc PutPet(PutPetRequest) returns (PutPetResponse)", "rpc PutPet(PutPetRequest) returns (PutPetRequest)").
+			allow("RPC_RESPONSE_STANDARD_NAME"),
+		// the flag does not allow reuse across RPCs
+		c05New("RPC_REQUEST_RESPONSE_UNIQUE").set().option("  rpc_allow_same_request_response: true\n").
+			sub(c05Service, "rpc PutPet(PutPetRequest)", "rpc PutPet(GetPetRequest)").
+			at(c05Service, "rpc GetPet(").at(c05Service, "rpc PutPet(").allow("RPC_REQUEST_STANDARD_NAME"),
+	)
+	// rpc_allow_google_protobuf_empty_requests / _responses
+	empty := func(opts string) *c05Case {
+		c := c05New("RPC_REQUEST_STANDARD_NAME").also("RPC_RESPONSE_STANDARD_NAME", "RPC_REQUEST_RESPONSE_UNIQUE").set()
+		if opts != "" {
+			c.option(opts)
+		} else {
+			c.tag = "opt"
+		}
+		c.fix(c05Service, "import \"acme/pet/v1/pet.proto\";\n", "import \"acme/pet/v1/pet.proto\";\nimport \"google/protobuf/empty.proto\";\n")
+		return c
+	}
+	const (
+		allowReq  = "  rpc_allow_google_protobuf_empty_requests: true\n"
+		allowResp = "  rpc_allow_google_protobuf_empty_responses: true\n"
+		reqStd    = "RPC_REQUEST_STANDARD_NAME"
+		respStd   = "RPC_RESPONSE_STANDARD_NAME"
+		unique    = "RPC_REQUEST_RESPONSE_UNIQUE"
+	)
+	emptyReq1 := func(c *c05Case) *c05Case {
+		return c.sub(c05Service, "rpc GetPet(GetPetRequest)", "rpc GetPet(google.protobuf.Empty)")
+	}
+	emptyReq2 := func(c *c05Case) *c05Case {
+		return c.sub(c05Service, "rpc PutPet(PutPetRequest)", "rpc PutPet(google.protobuf.Empty)")
+	}
+	emptyResp1 := func(c *c05Case) *c05Case {
+		return c.sub(c05Service, "returns (GetPetResponse)", "returns (google.protobuf.Empty)")
+	}
+	emptyResp2 := func(c *c05Case) *c05Case {
+		return c.sub(c05Service, "returns (PutPetResponse)", "returns (google.protobuf.Empty)")
+	}
+	add(
+		// no flag: Empty is an ordinary non-standard name
+		emptyReq1(empty("")).atRule(reqStd, c05Service, "google.protobuf.Empty)"),
+		emptyResp1(empty("")).atRule(respStd, c05Service, "google.protobuf.Empty)"),
+		// requests allowed
+		emptyReq1(empty(allowReq)),
+		emptyReq2(emptyReq1(empty(allowReq))),
+		emptyResp1(empty(allowReq)).atRule(respStd, c05Service, "google.protobuf.Empty)"),
+		emptyResp2(emptyResp1(empty(allowReq))).
+			atRule(respStd, c05Service, "google.protobuf.Empty)").atRule(respStd, c05Service, "google.protobuf.Empty);\n  // PutPet").atRule(respStd, c05Service, "google.protobuf.Empty);\n}").
+			atRule(unique, c05Service, "rpc GetPet(").atRule(unique, c05Service, "rpc PutPet("),
+		// responses allowed
+		emptyResp1(empty(allowResp)),
+		emptyResp2(emptyResp1(empty(allowResp))),
+		emptyReq1(empty(allowResp)).atRule(reqStd, c05Service, "google.protobuf.Empty)"),
+		emptyReq2(emptyReq1(empty(allowResp))).
+			atRule(reqStd, c05Service, "google.protobuf.Empty) returns (GetPetResponse").atRule(reqStd, c05Service, "google.protobuf.Empty) returns (PutPetResponse").
+			atRule(unique, c05Service, "rpc GetPet(").atRule(unique, c05Service, "rpc PutPet("),
+		// both allowed
+		emptyResp2(emptyReq2(emptyResp1(emptyReq1(empty(allowReq + allowResp))))),
+	)
+	// comment ignores: v1beta1/v1 allow_comment_ignores (default off), v2 disallow_comment_ignores (default on)
+	ignored := func() *c05Case {
+		return c05New("ENUM_PASCAL_CASE").
+			sub(c05Kind, "// PetKind says what animal a pet is.\nenum PetKind {", "// PetKind says what animal a pet is.\n// buf:lint:ignore ENUM_PASCAL_CASE\nenum pet_kind {").fix(c05Pet, "PetKind kind", "pet_kind kind")
+	}
+	add(
+		ignored().only("v2").option(""),
+		ignored().only("v2").option("  disallow_comment_ignores: true\n").at(c05Kind, "pet_kind {"),
+		ignored().only("v2").option("  disallow_comment_ignores: false\n"),
+		ignored().only("v1beta1", "v1").option("").at(c05Kind, "pet_kind {"),
+		ignored().only("v1beta1", "v1").option("  allow_comment_ignores: true\n"),
+		ignored().only("v1beta1", "v1").option("  allow_comment_ignores: false\n").at(c05Kind, "pet_kind {"),
+	)
+}
+
+// ---------------------------------------------------------------------------------------------
+// catalogue: COMMENT_*: a leading comment with a non-empty line is required (annotation at the element)
+
+func c05CatComments(add func(...*c05Case)) {
+	type el struct {
+		rule, path, comment, anchor string
+	}
+	els := []el{
+		{"COMMENT_ENUM", c05Kind, "// PetKind says what animal a pet is.\n", "enum PetKind {"},
+		{"COMMENT_ENUM", c05Pet, "  // Status is a nested enum.\n", "enum Status {"},
+		{"COMMENT_ENUM", c05Pet, "    // Color is a doubly nested enum.\n", "enum Color {"},
+		{"COMMENT_ENUM", c05Store, "// StoreKind is the kind of a store.\n", "enum StoreKind {"},
+		{"COMMENT_ENUM_VALUE", c05Kind, "  // Not known.\n", "PET_KIND_UNSPECIFIED = 0;"},
+		{"COMMENT_ENUM_VALUE", c05Kind, "  // A cat.\n", "PET_KIND_CAT = 2;"},
+		{"COMMENT_ENUM_VALUE", c05Pet, "      // Red.\n", "COLOR_RED = 1;"},
+		{"COMMENT_ENUM_VALUE", c05Pet, "    // Alive and well.\n", "STATUS_ACTIVE = 1;"},
+		{"COMMENT_ENUM_VALUE", c05Store, "  // Online shop.\n", "STORE_KIND_ONLINE = 1;"},
+		{"COMMENT_MESSAGE", c05Pet, "// Pet is a pet.\n", "message Pet {"},
+		{"COMMENT_MESSAGE", c05Pet, "  // Tag is a nested message.\n", "message Tag {"},
+		{"COMMENT_MESSAGE", c05Service, "// PutPetResponse is empty.\n", "message PutPetResponse {}"},
+		{"COMMENT_MESSAGE", c05Store, "// Store sells pets.\n", "message Store {"},
+		{"COMMENT_FIELD", c05Pet, "  // Name of the pet.\n", "string pet_name = 1;"},
+		{"COMMENT_FIELD", c05Pet, "    // Colour of the tag.\n", "Color tag_color = 2;"},
+		{"COMMENT_FIELD", c05Pet, "  // Tags of the pet.\n", "repeated Tag tags = 4;"},
+		{"COMMENT_FIELD", c05Pet, "  // Free-form labels.\n", "map<string, string> labels = 5;"},
+		{"COMMENT_FIELD", c05Pet, "    // A store.\n", "acme.store.v1.Store store = 7;"},
+		{"COMMENT_FIELD", c05Pet, "  // Optional nickname.\n", "optional string nick_name = 8;"},
+		{"COMMENT_FIELD", c05Service, "  // The pet.\n", "Pet pet = 1;"},
+		{"COMMENT_FIELD", c05Store, "  // The stores.\n", "repeated Store stores = 1;"},
+		{"COMMENT_ONEOF", c05Pet, "  // Who owns the pet.\n", "oneof owner_ref {"},
+		{"COMMENT_SERVICE", c05Service, "// PetService manages pets.\n", "service PetService {"},
+		{"COMMENT_SERVICE", c05Service, "// PetAdminService is a second service in the same file.\n", "service PetAdminService {"},
+		{"COMMENT_SERVICE", c05Store, "// StoreService lists stores.\n", "service StoreService {"},
+		{"COMMENT_RPC", c05Service, "  // GetPet fetches a pet.\n", "rpc GetPet("},
+		{"COMMENT_RPC", c05Service, "  // PutPet stores a pet.\n", "rpc PutPet("},
+		{"COMMENT_RPC", c05Service, "  // DeletePet removes a pet.\n", "rpc DeletePet("},
+		{"COMMENT_RPC", c05Store, "  // ListStores lists the stores.\n", "rpc ListStores("},
+	}
+	indent := func(comment string) string { return comment[:len(comment)-len(strings.TrimLeft(comment, " "))] }
+	for i, e := range els {
+		// the comment is removed
+		add(c05New(e.rule).sub(e.path, e.comment+indent(e.comment)+e.anchor, indent(e.comment)+e.anchor).at(e.path, e.anchor))
+		switch i % 4 {
+		case 0: // an empty comment is no comment
+			add(c05New(e.rule).sub(e.path, e.comment+indent(e.comment)+e.anchor, indent(e.comment)+"//\n"+indent(e.comment)+e.anchor).at(e.path, e.anchor))
+		case 1: // only a lint-ignore directive (for some other rule) is no documentation
+			add(c05New(e.rule).sub(e.path, e.comment+indent(e.comment)+e.anchor, indent(e.comment)+"// buf:lint:ignore FILE_LOWER_SNAKE_CASE\n"+indent(e.comment)+e.anchor).at(e.path, e.anchor))
+		case 2: // a block comment is a comment; a directive plus text is a comment
+			add(c05New(e.rule).sub(e.path, e.comment+indent(e.comment)+e.anchor, indent(e.comment)+"/* Block comment. */\n"+indent(e.comment)+e.anchor))
+			add(c05New(e.rule).sub(e.path, e.comment+indent(e.comment)+e.anchor, indent(e.comment)+"// buf:lint:ignore FILE_LOWER_SNAKE_CASE\n"+indent(e.comment)+"// Some words.\n"+indent(e.comment)+e.anchor))
+		case 3: // a comment detached by a blank line does not document the element
+			add(c05New(e.rule).sub(e.path, e.comment+indent(e.comment)+e.anchor, e.comment+"\n"+indent(e.comment)+e.anchor).at(e.path, e.anchor))
+		}
+	}
+	// only a trailing comment: the documentation comment is the leading one
+	add(
+		c05New("COMMENT_FIELD").sub(c05Pet, "  // Name of the pet.\n  string pet_name = 1;", "  string pet_name = 1; // Name of the pet.").at(c05Pet, "string pet_name = 1;"),
+		c05New("COMMENT_ENUM_VALUE").sub(c05Kind, "  // A dog.\n  PET_KIND_DOG = 1;", "  PET_KIND_DOG = 1; // A dog.").at(c05Kind, "PET_KIND_DOG = 1;"),
+		c05New("COMMENT_RPC").sub(c05Service, "  // PutPet stores a pet.\n  rpc PutPet(PutPetRequest) returns (PutPetResponse);", "  rpc PutPet(PutPetRequest) returns (PutPetResponse); // PutPet stores a pet.").at(c05Service, "rpc PutPet("),
+	)
+}
+
+// ---------------------------------------------------------------------------------------------
+// catalogue: PROTOVALIDATE (needs buf/validate/validate.proto, taken from the package's testdata)
+
+func c05CatProtovalidate(add func(...*c05Case)) {
+	data, err := os.ReadFile("testdata/lint/protovalidate/vendor/protovalidate/buf/validate/validate.proto")
+	if err != nil {
+		return
+	}
+	mk := func() *c05Case {
+		c := c05New("PROTOVALIDATE")
+		c.files["buf/validate/validate.proto"] = string(data)
+		c.opts = "  ignore:\n    - buf\n"
+		c.fix(c05Store, "package acme.store.v1;\n", "package acme.store.v1;\n\nimport \"buf/validate/validate.proto\";\n")
+		return c
+	}
+	add(
+		// valid rules
+		mk().sub(c05Store, "string store_name = 1;", "string store_name = 1 [(buf.validate.field).string.min_len = 1, (buf.validate.field).string.max_len = 30];"),
+		// contradictory bounds: both rules are reported
+		mk().sub(c05Store, "string store_name = 1;", "string store_name = 1 [(buf.validate.field).string.min_len = 5, (buf.validate.field).string.max_len = 3];").
+			at(c05Store, "(buf.validate.field).string.min_len").at(c05Store, "(buf.validate.field).string.max_len"),
+		// rules of the wrong type for the field
+		mk().sub(c05Store, "string store_name = 1;", "string store_name = 1 [(buf.validate.field).int64.gt = 1];").
+			at(c05Store, "(buf.validate.field).int64.gt"),
+		// a CEL expression that does not compile
+		mk().sub(c05Store, "string store_name = 1;", "string store_name = 1 [(buf.validate.field).cel = {id: \"store.name\", message: \"bad\", expression: \"this.foo(\"}];").
+			at(c05Store, "(buf.validate.field).cel"),
+	)
 }
